@@ -305,8 +305,16 @@ bool NinjaMain::RebuildManifest(const char* input_file, string* err,
   }
 
   // The manifest was only rebuilt if it is now dirty (it may have been cleaned
-  // by a restat).
-  if (!node->dirty()) {
+  // by a restat).  A generator that writes the manifest in several files (an
+  // included file next to the main one) has rebuilt it when any of them is.
+  bool rebuilt = node->dirty();
+  if (Edge* edge = node->in_edge()) {
+    for (Node* out : edge->outputs_) {
+      if (out->dirty())
+        rebuilt = true;
+    }
+  }
+  if (!rebuilt) {
     // Reset the state to prevent problems like
     // https://github.com/ninja-build/ninja/issues/874
     state_.Reset();
